@@ -51,6 +51,18 @@ CLAIMED = {
         note="Trusted: rustc MIR/HIR; quick-xml constructor semantics. Known finding: F15-residual (unknown entities in element text).",
         technique="static analysis: reader/sink classification (A11), MIR literal-key vocabulary with must-pass on Ok exits (A14), typed-HIR match-table extraction compared with reference tables (A15/A16), loop must-pass",
     ),
+    "C14": dict(
+        text="Decides the skeleton and wiring of the expression language: the precedence chain exists as call edges with loops at each binary level (left associativity) and no up-calls; each operator token/word selects the primitive of the reference table with operands in source order (%, = f32::rem_euclid; comparisons yield 0/1; logical words combine non-zero-ness); all 53 built-in names map to the variant/argument accessor/std primitive set frozen in policy/spec/functions.json (trigonometry in degrees) and every documented function exists; a parsed value is returned only when no tokens remain, parentheses/calls require their closing token, evaluator errors are propagated (5 reviewed type probes), number_pair/number_triple accept exactly 2/3 values; RNG draws only in random()/randint(); loop parameters are evaluated once. Numeric results and the exactly-once clause for re-evaluated attributes are not decided.",
+        design_ref="DESIGN.md section 4 C14",
+        note="Trusted: IEEE semantics of the named f32 primitives; the reviewed reference table policy/spec/functions.json.",
+        technique="static analysis: typed-HIR match-arm dispatch summaries compared with reference tables (A15/A16), call-graph skeleton (A1), MIR dominance on end-of-token tests and arity tests (A13), error-fate (A6)",
+    ),
+    "C16": dict(
+        text="Decides the control skeleton of <loop>/<for>/<if>: parameters and the data list are evaluated once before the loop; count is tested at the top, while before the body, until after it (at least one pass), each with the right edge leaving the loop; the loop variable is bound before and advanced after the body; each pass processes the unmodified stored inner events and appends its output in order; <for> binds item/index per pass over the list in order; loops open no variable scope; <if> processes its body exactly on the true edge and otherwise returns nothing; a condition is true iff != 0. Equality with the unrolled document is not decided.",
+        design_ref="DESIGN.md section 4 C16",
+        note="Trusted: rustc MIR; Vec::into_iter order.",
+        technique="static analysis: MIR natural loops, dominance and within-pass ordering, value-origin slices (A4/A13)",
+    ),
     "C06": dict(
         text="Decides the absence of order- and environment-dependent constructs: every iteration (or Debug rendering) of a HashMap/HashSet is followed to an order-insensitive consumer or a reviewed table line; clock/env/pid/unseeded-RNG calls occur only under use_local_styles and the randomised id is reset whenever local styles are off; the single Pcg32 is seeded from config.seed, reseeded only by set_config and consumed only by random()/randint(); output is merged through a BTreeMap<OrderIndex,_>. This is the whole mechanism behind the property; cross-platform floating point is outside the statement.",
         design_ref="DESIGN.md section 4 C06",
@@ -81,8 +93,6 @@ NOT_APPLICABLE = {
         "C11": "planned: attribute hygiene per shape; constraint solving is numeric",
         "C12": "planned: attribute hygiene and branch wiring; enclosure is numeric",
         "C13": "planned: attribute hygiene and route structure; distances are numeric",
-        "C14": "planned: grammar skeleton and operator wiring; numeric results are not decided",
-        "C16": "planned: loop/if control skeleton; equality with the unrolling compares two outputs",
         "C20": "planned: injection gating, guard/selector agreement, url/id closure",
     }.items()
 }
